@@ -47,6 +47,23 @@ def main(tier, replay):
         "The overload SSRB(output_filename, in, ...) (own output geometry, Interfile pair) is run on a third of the cases, its file read back and compared "
         "with the model as a further `ssrbdata` answer and, by the oracle, bin by bin with the in-memory overload (not when a negative trim widens the "
         "tangential range beyond the scanner's maximum, which the Interfile reader refuses; the TOF mashing factor of single-TOF-bin data is not compared). "
+        "IDENTITY-LIKE SSRB settings one at a time (round 3): on every generated geometry and on geometries with a single segment and/or a single axial "
+        "position per segment (one ring; direct sinograms only; span 1 with all ring differences; all ring differences in one segment; two rings) the "
+        "full identity request (1,1,0,-1,1) and each argument alone away from its identity value (segments 3/5, a divisor of the views, trim +-1/2, "
+        "max_in_segment, an odd TOF factor), geometry and data against the model; oracle on every ssrbinfo/ssrbdata operation: the part of the geometry "
+        "whose argument is at its identity value is unchanged (segments with ring differences, axial positions and m; views with azimuthal offset and "
+        "sampling; centred tangential range; TOF bins) and with nothing combined / trimmed every processed sinogram comes back bin by bin (also with do_norm). "
+        "DEGENERATE zoom requests (round 3): per axis independently zoom exactly 1 with offset 0 / != 0 (pure shift by 1, 2, 1/2 or a random number of "
+        "voxels) and zoom != 1 with offset 0 / != 0, i.e. offsets only in x, only in y, only in z, into a new grid of the same and of another size, "
+        "standard centred and other index ranges, all three ZoomOptions, the 8 transaxial combinations x 3 options x same/other size in turn; every "
+        "variant: one call with 3-D parameters, in place, two steps into a new image, two steps into a RE-USED image holding the result of another zoom, "
+        "transaxial one-call and in-place, and the transaxial two-step zoom_image(PixelsOnCartesianGrid&, const PixelsOnCartesianGrid&) plane by plane "
+        "into one re-used plane (operation `zoom pl`); all compared with the model and with each other; oracles on every result: total, centre of mass in "
+        "mm, uniform regions, the returned grid is the requested one (sizes, voxel size v/zoom, middle = old middle + offsets in mm), a two-step call "
+        "leaves the grid of its output image alone, and with zoom 1 and shifts by whole voxels every voxel holds the input value at the same position in mm. "
+        "The same degenerate requests for overlap_interpolate (zoom 1 with offset 0 / whole boxes / any, same and other index range: whole-box shifts "
+        "copy the values) and zoom_viewgram (zoom 1 or not, shift along x only / y only / both / none, same or another tangential range; 16 combinations). "
+        "inverse_SSRB and extend_segment also on one-ring data (a single direct sinogram / a single axial position). "
         "Real overlap_interpolate (VectorWithOffset and iterator versions), zoom_image / zoom_image_in_place (2-D-parameter, 3-D-parameter, two-step; the input's "
         "first plane is any of -2..2 for all interfaces, the 2-D-parameter call on a first plane != 0 runs in a child process because it is undefined behaviour "
         "without build/fixes/C15-3) with all three ZoomOptions, find_centre_of_gravity_in_mm on seeded small arrays/images against the exact Rat model. "
